@@ -27,7 +27,7 @@ Oracle fields of an `Item` (computed by the harness, see `fv/cosim_one2.py`): th
 whose `match` accepts the line (`cands`; the per-statement regex parsers are leaves), the Begin classes
 whose `process_item` rejects it (`invalid`: `Type`, `If`), the name found by the `process_item` of
 `Subroutine` / `Function` / `Interface` / `Type` (`oname`), the entity list of a type declaration
-(`decls`).  Begin and END lines are classified by the model itself with the translated regexes.
+(`decls`), the classes that cut a prefixed / typed FUNCTION header down (`needs`).  Begin and END lines are classified by the model itself with the translated regexes.
 No Mathlib.
 -/
 namespace Fp.One2
@@ -44,6 +44,9 @@ structure Item where
   oname : Str := []
   decls : List Str := []
   typedHdr : Bool := false     -- `<type-spec> function f(..)`: `Function.typedecl` is set by the header
+  needs : List Nat := []       -- oracle: the classes whose `process_item` cut the text down to the
+                               -- header in `text` (`SubprogramPrefix`, the type declaration class of a
+                               -- typed FUNCTION header): `put_item` + `item.clone`, `isvalid = False`
   deriving DecidableEq, Repr, Inhabited
 
 /-- the state of an open block (`self` of the running `fill`) -/
@@ -171,6 +174,15 @@ def childCtx (T : Tables) (c : Ctx) (ri : Nat) (it : Item) : Ctx :=
     parentDo := if isDo T c then c.endlabel else none,
     typed := it.typedHdr }
 
+/-- A header `<prefix> <type-spec> function f(..)` only reaches the `Function` class through the
+    classes that cut the prefix / type off (`it.needs`): each must be offered by the block BEFORE the
+    Begin class `k` (first occurrences).  E.g. `Interface.get_classes()` = `intrinsic_type_spec +
+    interface_specification` has no `TypeStmt` / `Class`: `type(t) function f(x)` inside an interface
+    block matches no class (a defect of fparser1 that the model mirrors). -/
+def needsOk (T : Tables) (c : Ctx) (it : Item) (k : Nat) : Bool :=
+  let cl := (rowAt T c.row).classes
+  it.needs.all fun d => decide (cl.idxOf d < cl.idxOf k)
+
 /-- `TypeDeclarationStatement.process_item`: a type declaration naming the enclosing FUNCTION becomes
     the function's `typedecl`; the block goes on with this state -/
 def typesFn (T : Tables) (c : Ctx) (it : Item) : Bool :=
@@ -186,7 +198,7 @@ def scan (T : Tables) (c : Ctx) (it : Item) : List Nat → Action
   | k :: ks =>
     match rowOf? T k with
     | some (ri, r) =>
-      if r.beginRe.matches it.text && !it.invalid.contains k then
+      if r.beginRe.matches it.text && !it.invalid.contains k && needsOk T c it k then
         if r.endCls == "" then .leaf k else .open_ ri (childCtx T c ri it)
       else scan T c it ks
     | none =>
